@@ -12,6 +12,7 @@
 -/
 import PS.Proofs.UcfgFromDftaLang
 import PS.Proofs.UcfgFromDftaCount
+import PS.Proofs.UcfgFromDftaNodup
 import PS.Proofs.FromCfg
 namespace PS.C06
 open PS PS.G PS.U PS.U.FD DFTA
@@ -72,29 +73,28 @@ theorem C06_ngram_unambiguous_partial (n : Int) (d : Q → UNT U) (A : DFTA Sym 
 
 /-! ## `programs()` -/
 
-/-- **count.** For an ACYCLIC automaton, whenever `programs()` of the grammar returns `n`
-    (memo table, any recursion budget), `n` is the length of a list that contains exactly the
-    accepted programs (`PS.U.langU` from the start symbols: one entry per derivation, and by
-    `C06_unambiguous_partial` every accepted program has exactly one derivation).
-    Not proved here: that this list has no repetition (compared on every case instead: the
-    harness counts the accepted trees independently). -/
-theorem C06_count_enum_partial (d : Q → UNT U) (A : DFTA Sym Q) (hd : A.Det) (hinj : InjOn d A)
+/-- **count.** For an ACYCLIC automaton, whenever `programs()` of the grammar returns `n` (memo
+    table, any recursion budget), `n` is the NUMBER of programs the automaton accepts: the length
+    of a duplicate-free list that contains exactly the accepted programs. -/
+theorem C06_count_partial (d : Q → UNT U) (A : DFTA Sym Q) (hd : A.Det) (hinj : InjOn d A)
     (hac : Acyclic A) (G : UCFG U) (h : fromDFTA d A = some G) (fuel n : Nat)
     (hp : programs G fuel = some n) :
-    ∃ L : List Prog, n = L.length ∧ ∀ t, t ∈ L ↔ A.accepts t = true := by
+    ∃ L : List Prog, L.Nodup ∧ (∀ t, t ∈ L ↔ A.accepts t = true) ∧ n = L.length := by
   obtain ⟨rank, hrank⟩ := hac
   have hb := built_of_build _ A _ G h
   have ok := plainFlat_ok d A hinj
-  exact ⟨_, programs_eq_enum hb ok rank hrank fuel n hp, mem_langU_starts hb ok hd rank hrank⟩
+  exact ⟨_, langU_starts_nodup hb ok hd _, mem_langU_starts hb ok hd rank hrank,
+    programs_eq_enum hb ok rank hrank fuel n hp⟩
 
-theorem C06_ngram_count_enum_partial (w : Int) (d : Q → UNT U) (A : DFTA Sym Q) (hd : A.Det)
+theorem C06_ngram_count_partial (w : Int) (d : Q → UNT U) (A : DFTA Sym Q) (hd : A.Det)
     (hinj : InjOn d A) (hac : Acyclic A) (bfuel : Nat) (G : UCFG (List (Sym × Nat) × U))
     (h : fromDFTAWithNgrams w d A bfuel = some G) (fuel n : Nat) (hp : programs G fuel = some n) :
-    ∃ L : List Prog, n = L.length ∧ ∀ t, t ∈ L ↔ A.accepts t = true := by
+    ∃ L : List Prog, L.Nodup ∧ (∀ t, t ∈ L ↔ A.accepts t = true) ∧ n = L.length := by
   obtain ⟨rank, hrank⟩ := hac
   have hb := built_of_build _ A _ G h
   have ok := ngramFlat_ok w d A hinj
-  exact ⟨_, programs_eq_enum hb ok rank hrank fuel n hp, mem_langU_starts hb ok hd rank hrank⟩
+  exact ⟨_, langU_starts_nodup hb ok hd _, mem_langU_starts hb ok hd rank hrank,
+    programs_eq_enum hb ok rank hrank fuel n hp⟩
 
 /-- every non-terminal of the grammar of an acyclic automaton completes all its derivations
     within (sum of the ranks) + 1 levels: the grammar is not recursive -/
